@@ -351,21 +351,22 @@ theorem fixedWindowRoll_frame (r : RollerCfg) (file : Path) (fault : Nat → Boo
 /-! ### the u32 guard -/
 
 theorem rollU32_guarded (r : RollerCfg) (file : Path) (fault : Nat → Bool) (d : Disk)
-    (hg : r.base + r.count < U32_MOD) :
-    rollU32 r file fault d =
-      match fixedWindowRoll r file fault d with
-      | (.ok d', d'') => (.ok d', d'')
-      | (.error e, d'') => (.err e, d'') := by
+    (hg : r.base + r.count ≤ U32_MOD) :
+    rollU32 r file fault d = liftRoll (fixedWindowRoll r file fault d) := by
   unfold rollU32
   rw [if_neg (by omega)]
-  rfl
 
 theorem rollU32_disk (r : RollerCfg) (file : Path) (fault : Nat → Bool) (d : Disk)
-    (hg : r.base + r.count < U32_MOD) :
+    (hg : r.base + r.count ≤ U32_MOD) :
     (rollU32 r file fault d).2 = (fixedWindowRoll r file fault d).2 := by
   rw [rollU32_guarded _ _ _ _ hg]
   rcases fixedWindowRoll r file fault d with ⟨res, d''⟩
   cases res <;> rfl
+
+theorem rollU32_count_zero (r : RollerCfg) (file : Path) (fault : Nat → Bool) (d : Disk)
+    (hc : r.count = 0) : rollU32 r file fault d = liftRoll (fixedWindowRoll r file fault d) := by
+  unfold rollU32
+  rw [if_neg (by omega)]
 
 /-! ### windows as lists (newest first) and successive rolls -/
 
@@ -389,7 +390,7 @@ namespace Log4rs.Roller
 
 /-- one fault-free roll on an arbitrary window, slot by slot (see `C07_rotate_general`) -/
 theorem rollU32_general (r : RollerCfg) (file : Path) (d : Disk) (x : Bytes)
-    (hg : r.base + r.count < U32_MOD) (hc : r.count ≠ 0)
+    (hg : r.base + r.count ≤ U32_MOD) (hc : r.count ≠ 0)
     (hinj : NamesInj r) (hfa : FileApart r file) (hx : d.get? file = some x) :
     ∃ d', rollU32 r file (fun _ => false) d = (.ok d', d') ∧
       slot r d' r.base = some (r.enc x) ∧
@@ -401,7 +402,7 @@ theorem rollU32_general (r : RollerCfg) (file : Path) (d : Disk) (x : Bytes)
       (∀ i, i < r.base ∨ r.base + r.count ≤ i → slot r d' i = slot r d i) := by
   obtain ⟨d', hroll, hq⟩ := fixedWindowRoll_ok r file d x hc hfa hx
   refine ⟨d', ?_, ?_, ?_, ?_, ?_⟩
-  · rw [rollU32_guarded _ _ _ _ hg, hroll]
+  · rw [rollU32_guarded _ _ _ _ hg, hroll]; rfl
   · simp [slot, hq]
   · rw [hq]; simp [(hfa r.base).symm]
   · intro j h1 h2
@@ -425,7 +426,7 @@ theorem rollU32_general (r : RollerCfg) (file : Path) (d : Disk) (x : Bytes)
 
 /-- one roll on a window described as a list, newest first (see `C07_roll_window`) -/
 theorem rollU32_window (r : RollerCfg) (file : Path) (d : Disk) (x : Bytes) (ws : List Bytes)
-    (hg : r.base + r.count < U32_MOD) (hc : r.count ≠ 0)
+    (hg : r.base + r.count ≤ U32_MOD) (hc : r.count ≠ 0)
     (hinj : NamesInj r) (hfa : FileApart r file) (hw : WindowIs r d ws) :
     WindowIs r (rollU32 r file (fun _ => false) (d.set file x)).2 ((r.enc x :: ws).take r.count) ∧
       (rollU32 r file (fun _ => false) (d.set file x)).2.get? file = none := by
